@@ -46,14 +46,14 @@ CONST_STAMP = "20260101-000000"
 FP_NO_DESTROY = "C15|no-destroy|Search.__init__|backup name already taken (same second)"
 FP_NO_DESTROY_EARLY = ("C15|no-destroy|Evaluator.dump_jobs_done_to_csv|first dump of a search constructed before "
                        "another search wrote results.csv")
-
-
-def _fp_nd(scn):
-    return FP_NO_DESTROY_EARLY if scn.get("early") else FP_NO_DESTROY
 SCRATCH = "/tmp/g11/c15"
 TRACE_SET = ("openat,open,creat,write,pwrite64,writev,ftruncate,truncate,rename,renameat,renameat2,"
              "unlink,unlinkat,link,linkat,symlink,symlinkat,close")
 CHILD_TIMEOUT = 120
+
+
+def _fp_nd(scn):
+    return FP_NO_DESTROY_EARLY if scn.get("early") else FP_NO_DESTROY
 
 
 # --------------------------------------------------------------------------- the traced program
@@ -395,7 +395,7 @@ def _result_ops(raw):
     return [o for o in raw if _is_result_name(o["n"]) or ("to" in o and _is_result_name(o["to"]))]
 
 
-def _tag_lines(ops, marks_at=None):
+def _tag_lines(ops):
     """turn write payloads into line tags; `sid` = index of the search that produced the file.
     Tracks, per file name, the header (for the job_id column) and the owner search."""
     hdr, owner = {}, {}
@@ -471,8 +471,7 @@ def _read_dir(d):
 def _task(task):
     """pool worker: one traced execution (+ optional kill, + continuation after a kill)"""
     scn, inject = task["scn"], task.get("inject")
-    os.makedirs(SCRATCH, exist_ok=True)
-    base = tempfile.mkdtemp(prefix="s", dir=SCRATCH)
+    base = tempfile.mkdtemp(prefix="s", dir=_scratch())
     log_dir, side = os.path.join(base, "ld"), os.path.join(base, "side")
     os.makedirs(log_dir)
     os.makedirs(side)
@@ -559,8 +558,10 @@ def _init_worker():
 
 
 def _scratch():
-    os.makedirs(SCRATCH, exist_ok=True)
-    return SCRATCH
+    """per-run scratch directory (the pool workers get it through the environment)"""
+    d = os.environ.get("C15_SCRATCH", SCRATCH)
+    os.makedirs(d, exist_ok=True)
+    return d
 
 
 # --------------------------------------------------------------------------- model side
@@ -711,7 +712,7 @@ def _scenarios(ck):
         {"runs": [{"kind": "random", "nobj": 1, "batch": 4, "calls": [6, 2], "fail": "some"}]},
     ]
     extra = []
-    for t in range(ck.pick(3, 40)):
+    for t in range(ck.pick(3, 30)):
         nruns = rng.choice([1, 1, 1, 2, 3])
         runs = []
         for _ in range(nruns):
@@ -729,13 +730,13 @@ def _scenarios(ck):
                          "seed": rng.randint(0, 10 ** 6)})
         extra.append({"clock": rng.choice(["real", "const"]), "runs": runs})
     same = []
-    for t in range(ck.pick(4, 18)):
+    for t in range(ck.pick(4, 16)):
         n = rng.randint(2, 5) if t else 5
         runs = [{"kind": "random", "nobj": rng.choice([1, 2]), "batch": rng.randint(1, 3),
                  "calls": [rng.randint(1, 2)] if rng.random() < 0.85 else [], "seed": rng.randint(0, 999)} for _ in range(n)]
         same.append({"clock": "const" if t % 2 == 0 else "real", "runs": runs, "same_second": True})
     early = []
-    for t in range(ck.pick(2, 10)):
+    for t in range(ck.pick(2, 8)):
         n = rng.randint(2, 3)
         runs = [{"kind": rng.choice(["random", "random", "cbo"]), "nobj": rng.choice([1, 2]), "batch": rng.randint(1, 3),
                  "calls": [rng.randint(1, 3) for _ in range(rng.randint(1, 2))], "seed": rng.randint(0, 999)} for _ in range(n)]
@@ -752,20 +753,26 @@ def _scenarios(ck):
 
 def _kill_points(ck, scn, ops, gs):
     n = len(ops)
-    if ck.thorough or n <= 12:
-        ks = list(range(n))
-    else:
-        ks = {0, 1, 2, n - 1, n - 2}
-        for g in gs:
-            if g["kind"] in ("rewrite", "backup") or (g["kind"] == "dump" and ops[g["ops"][0]]["op"] == "openW"):
-                ks.update(g["ops"])
-                ks.add(min(n - 1, g["ops"][-1] + 1))
-        rest = [k for k in range(n) if k not in ks]
-        ck.rng.shuffle(rest)
-        ks.update(rest[: ck.pick(4, 0)])
-        ks = sorted(ks)
-    if scn.get("same_second") and not ck.thorough:
-        ks = [k for k in ks if ops[k]["op"] == "rename" or k % 5 == 0][:10]
+    if ck.thorough or n <= 10:
+        return list(range(n))
+    # quick tier: first and last call, every call of the first group of each critical kind (file creation,
+    # backup rename, Pareto rewrite) and the call after it, one call of every other group, a few random ones
+    ks, seen = {0, n - 1}, set()
+    for g in gs:
+        kind = _phase_of(ops, gs, g["ops"][0])
+        if kind in ("first-dump", "pareto-rewrite", "Search.__init__") and kind not in seen:
+            ks.update(g["ops"])
+            ks.add(min(n - 1, g["ops"][-1] + 1))
+        elif kind in ("first-dump", "pareto-rewrite", "Search.__init__", "append-dump"):
+            ks.add(ck.rng.choice(g["ops"]))
+        seen.add(kind)
+    rest = [k for k in range(n) if k not in ks]
+    ck.rng.shuffle(rest)
+    ks.update(rest[:2])
+    ks = sorted(ks)
+    if len(ks) > 16:
+        keep = set(ck.rng.sample(ks, 16)) | {0, n - 1}
+        ks = sorted(keep)
     return ks
 
 
@@ -890,6 +897,18 @@ def _check_record(ck, ev, scn, rec):
     ev.ask({"op": "replay", "runs": runs}, on_replay)
     # every finished search's results are still on disk in distinct files
     _check_snapshots(ck, scn, None, rec["snaps"], rec["files"], "finished", case)
+    # ... and a further search in the directory keeps them, loads the last one and runs
+    text = rec["files"].get("results.csv")
+    post = rec.get("post", {})
+    state = {"failed": False}
+
+    def fail(clause, what, detail):
+        if not state["failed"]:
+            state["failed"] = True
+            ck.fail(_fp_nd(scn) if clause is None else f"C15|{clause}|finished|any", what, case, detail)
+    if text is not None and "fit" in post and _has_success(text) and post["fit"] != "ok":
+        fail("reload", "CBO.fit_surrogate cannot load the results.csv of a finished search", post["fit"])
+    _check_post(ck, ev, scn, case, "finished", text, rec, fail)
     ck.case(case, nontrivial=len(ops) > 4)
     return ops, gs, runs
 
@@ -1056,28 +1075,35 @@ def _check_kill(ck, ev, scn, rec, gs, runs, k, res):
 
     # nothing destroyed by the kill
     _check_snapshots(ck, scn, k, res["snaps"], res["files"], phase, case)
-    # continuation
-    if post:
-        if "crash" in post:
-            raise HarnessError("continuation child crashed: " + str(post["crash"])[-800:])
-        before, after = res["files"], res.get("files_after", {})
-        if post.get("cont") != "ok":
-            ev.ask(None, lambda _: fail("continue", f"a new search in the log_dir left by a kill in {phase} does not run", post.get("cont")))
-        else:
-            new = post.get("new_files", [])
-            if text is not None:
-                if len(new) != 1 or after.get(new[0]) != text:
-                    ev.ask(None, lambda _: fail(None, "the new search did not keep the earlier results.csv under a fresh name",
-                                                {"new_files": new, "files_before": sorted(before)}))
-            for n, t in before.items():
-                if n != "results.csv" and not n.endswith(".tmp") and after.get(n) != t:
-                    ck.fail(FP_NO_DESTROY, "a new search changed an earlier result file", case, {"file": n})
-            nsid = len(scn["runs"])
+    _check_post(ck, ev, scn, case, phase, text, res, fail)
 
-            def on_cont(rep):
-                if not rep["visible"]:
-                    fail("continue", "the results.csv written by the continuing search is not well formed", rep["lines"])
-            ev.ask({"op": "check", "text": after.get("results.csv"), "sid": nsid, "done": _done_jobs(res.get("done_after", [])), "dumped": []}, on_cont)
+
+def _check_post(ck, ev, scn, case, phase, text, res, fail):
+    """what a user does next: a new search in the same directory (it must keep what is there under a
+    fresh name, byte for byte, load it and run)"""
+    post = res.get("post", {})
+    if not post:
+        return
+    if "crash" in post:
+        raise HarnessError("continuation child crashed: " + str(post["crash"])[-800:])
+    before, after = res["files"], res.get("files_after", {})
+    if post.get("cont") != "ok":
+        ev.ask(None, lambda _: fail("continue", f"a new search in the log_dir left by a kill in {phase} does not run", post.get("cont")))
+        return
+    new = post.get("new_files", [])
+    if text is not None:
+        if len(new) != 1 or after.get(new[0]) != text:
+            ev.ask(None, lambda _: fail(None, "the new search did not keep the earlier results.csv under a fresh name",
+                                        {"new_files": new, "files_before": sorted(before)}))
+    for n, t in before.items():
+        if n != "results.csv" and not n.endswith(".tmp") and after.get(n) != t:
+            ck.fail(FP_NO_DESTROY, "a new search changed an earlier result file", case, {"file": n})
+    nsid = len(scn["runs"])
+
+    def on_cont(rep):
+        if not rep["visible"]:
+            fail("continue", "the results.csv written by the continuing search is not well formed", rep["lines"])
+    ev.ask({"op": "check", "text": after.get("results.csv"), "sid": nsid, "done": _done_jobs(res.get("done_after", [])), "dumped": []}, on_cont)
 
 
 # --------------------------------------------------------------------------- entry points
@@ -1102,7 +1128,7 @@ def _run_cases(ck, pool, scns, kills_for):
     """scns: list of scenarios; kills_for(scn, ops, gs) -> list of op indices to kill before"""
     ev = _Eval(ck)
     t0 = time.time()
-    recs = list(pool.map(_task, [{"scn": s} for s in scns]))
+    recs = list(pool.map(_task, [{"scn": s, "post": True} for s in scns]))
     ck.notes.append(f"record phase: {len(scns)} runs in {time.time() - t0:.1f}s")
     todo = []
     for scn, rec in zip(scns, recs):
@@ -1166,7 +1192,7 @@ def run(ck):
         "the text->line parser of Drivers/C15.lean and the strace output parser of harness/c15.py",
         "pandas.read_csv / csv.DictWriter / the OS file system are modelled, not verified",
     ]
-    shutil.rmtree(SCRATCH, ignore_errors=True)
+    os.environ["C15_SCRATCH"] = f"{SCRATCH}_{os.getpid()}"
     with _pool() as pool:
         corpus = _corpus_cases()
         if corpus:
@@ -1187,12 +1213,14 @@ def run(ck):
                 ck.count("wide" if r["wide"] else "narrow")
             ck.count("clock:" + s["clock"])
         _run_cases(ck, pool, scns, lambda scn, ops, gs: _kill_points(ck, scn, ops, gs))
-    shutil.rmtree(SCRATCH, ignore_errors=True)
+    shutil.rmtree(os.environ["C15_SCRATCH"], ignore_errors=True)
 
 
 def replay(ck, case):
     scn = case["scn"]
+    os.environ["C15_SCRATCH"] = f"{SCRATCH}_{os.getpid()}"
     with _pool(2) as pool:
         _run_cases(ck, pool, [scn], lambda s, ops, gs: _spec_kills([case.get("kill")], ops, gs))
+    shutil.rmtree(os.environ["C15_SCRATCH"], ignore_errors=True)
     print("replay:", json.dumps({"scenario": scn, "kill": case.get("kill"), "failures": [f["fingerprint"] for f in ck.failures],
                                  "mismatches": len(ck.mismatches)}))
